@@ -27,7 +27,7 @@ CHECKS = {
         engine="thx",
         category="model_checking",
         technique="stateless model checking of the real storages: threads under a cooperative scheduler (sys.monitoring line events + cooperative locks), processes at SQL-statement level over real SQLite, at syscall level over a simulated file system and at Redis-command level over fakeredis; iterative preemption bounding, state caching for the file system part; brute-force linearizability oracle",
-        text="For every unordered pair of a 15-operation collision-forcing alphabet (plus curated 2x2 and 3x1 programs) all interleavings up to the preemption bound are enumerated for (A) 2-3 real threads sharing one storage object (in-memory, journal, cached RDB, gRPC client) with a scheduling point at every source line of the storage-layer file and at every lock operation, (B) processes/threads with their own connections on one SQLite file with a scheduling point at every SQL statement and commit (single-writer lock modelled, real SQLite executes), (C) processes with their own JournalStorage over one simulated journal file with a scheduling point at every syscall (both lock classes). Each complete history must equal, in return values and final state, some real-time-consistent sequential execution on the same backend.",
+        text="For every unordered pair of a 16-operation collision-forcing alphabet (incl. the deep-copying list read, with a scheduling point at every trial copy) (plus curated 2x2 and 3x1 programs) all interleavings up to the preemption bound are enumerated for (A) 2-3 real threads sharing one storage object (in-memory, journal, cached RDB, gRPC client) with a scheduling point at every source line of the storage-layer file and at every lock operation, (B) processes/threads with their own connections on one SQLite file with a scheduling point at every SQL statement and commit (single-writer lock modelled, real SQLite executes), (C) processes with their own JournalStorage over one simulated journal file with a scheduling point at every syscall (both lock classes). Each complete history must equal, in return values and final state, some real-time-consistent sequential execution on the same backend.",
         note="Line-granularity preemption for threads; locks replaced by cooperative ones discovered by type; bounds: threads 2 (mem) / 1 quick, 3 / 2 thorough; SQL 1 / 2; SimFS 2 / 3 with state caching; Redis journal (Lua and use_cluster paths) 2 procs, bound 2. SQLite atomicity failures are known findings (see known_findings.json).",
         design="3/C03",
     ),
@@ -59,7 +59,7 @@ CHECKS = {
         engine="seqx",
         category="model_checking",
         technique="bounded-exhaustive enumeration of multi-worker call sequences on the real JournalStorage, with all batch splits and all snapshot positions of every resulting log",
-        text="Every sequence of 3 (thorough 4) calls by 2 workers over a 14-operation alphabet that includes the rejected calls, and every sequence with one foreign append landing between a call's append and its read, is executed on real JournalStorage objects sharing one list-backed backend. After every call all workers must equal a fresh replay; every one of the 2^(n-1) batch splits and every (snapshot position, worker) restore + tail must give the same state; a rejected call raises only at its issuer and changes nothing; log_number_read equals the records consumed.",
+        text="Every sequence of 3 (thorough 4) calls by 2 workers over a 16-operation alphabet that includes the rejected calls and trial creation in a second study, and every sequence with one foreign append landing between a call's append and its read, is executed on real JournalStorage objects sharing one list-backed backend. After every call all workers must equal a fresh replay; every one of the 2^(n-1) batch splits and every (snapshot position, worker) restore + tail must give the same state; a rejected call raises only at its issuer and changes nothing; log_number_read equals the records consumed.",
         note="Backend is a Python list of JSON strings with cut points (real read path, real apply_logs); file/redis specifics are covered by C07/C01.",
         design="3/C06",
     ),
